@@ -1730,6 +1730,7 @@ func (m *repoManager) hideBranch(uuid dvid.UUID, branch string) error {
 	}
 	r.Unlock()
 	m.repoMutex.Unlock()
+	m.cacheBranchHeads(r)
 	return r.save()
 }
 
@@ -1798,6 +1799,7 @@ func (m *repoManager) makeMaster(newMasterUUID dvid.UUID, oldMasterBranchName st
 
 	// save() takes the repo's read lock itself and RWMutex is not reentrant.
 	r.RUnlock()
+	m.cacheBranchHeads(r)
 	err = r.save()
 	r.RLock()
 	return err
@@ -1990,6 +1992,9 @@ func (m *repoManager) merge(parents []dvid.UUID, note string, mt MergeType) (dvi
 		node.updated = time.Now()
 		node.Unlock()
 	}
+
+	// The merge child is the new head of its branch.
+	m.cacheBranchHeads(r)
 
 	// Notify data instances that we have a new child in case they have to do some kind of initialization.
 	r.RLock()
@@ -2463,11 +2468,41 @@ func newRepo(uuid dvid.UUID, v dvid.VersionID, id dvid.RepoID, passcode string) 
 func (r *repoT) branchHeads() map[string]dvid.UUID {
 	branchToUUID := make(map[string]dvid.UUID)
 	for _, node := range r.dag.nodes {
-		if len(node.children) == 0 {
+		// The head of a branch is its last node: none of its children continues the branch.
+		isHead := true
+		for _, cv := range node.children {
+			if child, found := r.dag.nodes[cv]; found && child.branch == node.branch {
+				isHead = false
+				break
+			}
+		}
+		if isHead {
 			branchToUUID[node.branch] = node.uuid
 		}
 	}
 	return branchToUUID
+}
+
+// cacheBranchHeads recomputes the cached branch heads of a repo after its DAG changed shape
+// (merge, branch renaming, hidden branches), the same way they are computed on start-up.
+func (m *repoManager) cacheBranchHeads(r *repoT) {
+	r.RLock()
+	heads := r.branchHeads()
+	r.RUnlock()
+	prefix := string(r.uuid)
+	m.branchMutex.Lock()
+	for desc := range m.branchToUUID {
+		if strings.HasPrefix(desc, prefix) {
+			delete(m.branchToUUID, desc)
+		}
+	}
+	for branch, head := range heads {
+		if branch == "" {
+			branch = "master"
+		}
+		m.branchToUUID[prefix+branch] = head
+	}
+	m.branchMutex.Unlock()
 }
 
 // For all data tiers of storage, remove data kv pairs associated with this data instance.
